@@ -25,7 +25,9 @@ def build_case(cid, rng):
                         # references to trait objects (the user's own `dyn` is copied into the generated signatures; nothing else may appear)
                         ("&(dyn ::core::ops::Fn(u64) -> u64 + ::core::marker::Sync)", "s(2)", "&|v: u64| v + 1"),
                         ("&(dyn ::core::any::Any + ::core::marker::Sync)", "(s.type_id() == ::core::any::TypeId::of::<u8>()) as u64", "&7u8"),
-                        ("&mut (dyn ::core::iter::Iterator<Item = u64> + ::core::marker::Send)", "s.next().unwrap_or(0)", "&mut (1u64..1000)")])
+                        ("&mut (dyn ::core::iter::Iterator<Item = u64> + ::core::marker::Send)", "s.next().unwrap_or(0)", "&mut (1u64..1000)"),
+                        # function pointers over references (higher-ranked signatures)
+                        ("fn(&u64) -> u64", "s(&2)", "|v: &u64| *v + 1"), ("for<'v> fn(&'v u64) -> &'v u64", "*s(&3)", "|v: &u64| v")])
     with_lt = bool(extra) and "'a" in extra[0]
     no_send = is_async and rng.random() < 0.25
     G = "<'a>" if with_lt else ""
